@@ -405,6 +405,28 @@ class C04Gen:
         self.stat("callee_var_alloca_first")
         return fn, "p2"
 
+    def h_cold(self):
+        """callee with register-using code BEHIND its last `ret` that is executed: an unlikely path
+        `slow: ...; jmp back` taken for odd `a`, or a loop whose exit `ret` sits in the middle"""
+        r = self.r
+        fn = self.fname("cold")
+        L = lambda x: f"{fn}_{x}"
+        if r.chance(1, 2):
+            ins = [("mov", "r", 1), ("mov", "k", 3), ("and", "t", "a", 1), ("bt", L("slow"), "t"), ("label", L("back")),
+                   ("add", "r", "r", "a"), ("xor", "r", "r", "k"), ("ret", "r"),
+                   ("label", L("slow")), ("mul", "k", "k", "b"), ("add", "k", "k", 77), ("add", "r", "r", "k"),
+                   ("mov", "i", "r"), ("mul", "r", "i", 5), ("jmp", L("back"))]
+            self.stat("cold_path_after_ret")
+        else:
+            ins = [("mov", "i", 0), ("mov", "r", "a"), ("mov", "k", 1), ("label", L("top")), ("bge", L("exit"), "i", 3), ("jmp", L("body")),
+                   ("label", L("exit")), ("add", "r", "r", "k"), ("ret", "r"),
+                   ("label", L("body")), ("add", "r", "r", "b"), ("mul", "r", "r", 3), ("add", "k", "k", "r"),
+                   ("and", "t", "r", 255), ("xor", "k", "k", "t"), ("add", "i", "i", 1), ("jmp", L("top"))]
+            self.stat("loop_exit_ret_in_middle")
+        self.add(self.M, fn, "i64, i64:a, i64:b", ["r", "k", "t", "i"], ins)
+        self.M.protos.add("p2: proto i64, i64:a, i64:b")
+        return fn, "p2"
+
     def h_alloca_loop(self):
         """constant alloca after a label, executed in a loop (non-top alloca)"""
         fn = self.fname("al")
@@ -560,7 +582,7 @@ class C04Gen:
         nsc = 1 + r.below(3)
         uses_ll = False
         for s in range(nsc):
-            k = r.below(16)
+            k = r.below(18)
             if vback and s == 0:
                 k = r.choice([3, 4, 13, 14])     # the caller's variable block next to inlined constant ones
             loop = r.chance(1, 4)
@@ -615,6 +637,10 @@ class C04Gen:
             elif k == 11:
                 hn, pn = self.h_random()
                 ins += [(kind, pn, hn, "t0", a1, a2, ("d", 0.0))]
+            elif k in (15, 16):      # both parities of the first argument: hot and cold path
+                hn, pn = self.h_cold()
+                ins += [(kind, pn, hn, "t1", a1, a2), ("xor", "t0", a1, 1), (r.choice(["call", "inline"]), pn, hn, "t0", "t0", a2),
+                        ("add", "t0", "t0", "t1")]
             elif k in (13, 14):
                 hn, pn = self.h_alloca_var_first()
                 ins += [(kind, pn, hn, "t0", a1, a2)]
